@@ -112,7 +112,7 @@ private:
 	struct Context {
 		F f;
 		Thread* t;
-		volatile bool ready;
+		volatile int ready;
 		int i0, i1, s;
 	};
 
@@ -151,11 +151,21 @@ private:
 		return 0;
 	}
 #ifdef ASL_EXP_THREADING
+	// hands the context back to the creator: an atomic operation (full barrier), not a plain store, so that the
+	// copy of the context made before it is complete when the creator sees the flag and reuses the context
+	static void setReady(volatile int* ready)
+	{
+#ifndef ASL_NO_ATOMIC_OPS
+		atomicInc(ready);
+#else
+		*ready = 1;
+#endif
+	}
 	template<class Func>
 	static void ASL_THREADFUNC_API beginf(void* p)
 	{
 		Context<Func> s = *(Context<Func>*)p;
-		((Context<Func>*)p)->ready = true;
+		setReady(&((Context<Func>*)p)->ready);
 		s.f();
 		s.t->_threadFinished = true;
 	}
@@ -164,7 +174,7 @@ private:
 	{
 		if (!p) return;
 		Context<Func> s = *(Context<Func>*)p;
-		((Context<Func>*)p)->ready = true;
+		setReady(&((Context<Func>*)p)->ready);
 		for (int i = s.i0; i < s.i1; i += s.s)
 		{
 			s.f(i);
